@@ -500,3 +500,9 @@ def run(ctx):
     c05.r2(ctx, rule='C07.R3')
     r4(ctx)
     r5(ctx, bounds or {})
+    # R6 BUILDER-STATE (= C06.R1/R4): what `arbitrary builder state` means -- the en-passant square is derived from the file and
+    # the side to move AT CONVERSION TIME, setup() stores its arguments in the matching fields
+    from . import c06
+    sub = Sub(ctx, {'C06.R1': 'C07.R6', 'C06.R4': 'C07.R6'})
+    c06.r1_r5(sub)
+    c06.r4(sub)
